@@ -332,7 +332,7 @@ Section L.
     at_path_xs F lvalidate lto_python ldefault lcallable lflag vrun ps w last pre c dyn vs fs x = (w', last', c', oc1) ->
     oc1 <> OOk -> c' = c.
   Proof.
-    intros ps x w last pre c dyn vs fs w' last' c' oc1 Hx H Ho. destruct x as [o|r k sdyn svs sfs dops|r k dops]; [destruct Hx| |];
+    intros ps x w last pre c dyn vs fs w' last' c' oc1 Hx H Ho. destruct x as [o|r k sdyn svs sfs dops|r k dops|r k from]; [destruct Hx| | |];
       cbn [at_path_xs] in H.
     - destruct (detached F lvalidate lto_python ldefault lcallable lflag vrun w sdyn svs sfs dops) as [w1 src].
       destruct (at_path ps w1 pre c dyn vs fs (obj_cop r k src)) as [[w2 c1] o1] eqn:E. inversion H; subst.
@@ -340,6 +340,10 @@ Section L.
     - destruct last as [[src0 [[sdyn svs] sfs]]|]; [|inversion H; subst; reflexivity].
       destruct (run_detached F lvalidate lto_python ldefault lcallable lflag vrun dops w src0 sdyn svs sfs) as [w1 src].
       destruct (at_path ps w1 pre c dyn vs fs (obj_cop r k src)) as [[w2 c1] o1] eqn:E. inversion H; subst.
+      eapply reject_unchanged; [| exact E | exact Ho]. destruct r; reflexivity.
+    - (* an item taken from elsewhere in the same tree: refused, it stays where it was and nothing else moves either *)
+      destruct (cfg_at F from c fs) as [src|]; [|inversion H; subst; reflexivity].
+      destruct (at_path ps w pre c dyn vs fs (obj_cop r k src)) as [[w2 c1] o1] eqn:E. inversion H; subst.
       eapply reject_unchanged; [| exact E | exact Ho]. destruct r; reflexivity.
   Qed.
 
